@@ -35,7 +35,20 @@ def fp (w : W) (c : Cl) : W × String :=
   let last := match c.g.last with | none => "-" | some (m, ts) => s!"{m}@{ts}"
   let msgs := joinWith "," ((sortBy rowBefore c.msgs).map (fun m => s!"{m.mid}:{m.author}:{stLetter m.state}:{m.epoch}:{m.wrapper}:{m.tok}"))
   let recs := joinWith "," ((sortBy recLt c.recs).map (fun p => s!"{p.1}:{recLetter p.2.state}:{optStr p.2.epoch}"))
-  (w, s!"E{c.g.recEpoch} T{t} M[{commaNat c.g.members}] A[{commaNat c.g.recAdmins}] N{c.g.recName} Sa PR[{commaNat c.g.props}] L{last} X[{msgs}] K[{recs}] Z{c.mgr.length}")
+  -- `I` is the model's number of the nostr group id (0 = the id chosen at creation, v+1 = `data nid v`); the
+  -- harness numbers ids by first occurrence, the comparison renumbers both sides by first occurrence
+  (w, s!"E{c.g.recEpoch} T{t} M[{commaNat c.g.members}] A[{commaNat c.g.recAdmins}] N{c.g.recName} D{c.g.recDesc} I{c.g.recNid} R[{commaNat c.g.recRelays}] Sa PA[] PR[{commaNat c.g.props}] L{last} X[{msgs}] K[{recs}] Z{c.mgr.length}")
+
+/-- `field value` pairs of a `data` line: name / desc tokens, `relays k` = relays 1..k, `admins` a csv of
+    client numbers, `nid v` = the id the harness derives from v (model number v+1) -/
+def parseUpd : List String → DataUpd → Option DataUpd
+  | [], u => some u
+  | "name" :: v :: r, u => parseUpd r { u with name := v.toNat? }
+  | "desc" :: v :: r, u => parseUpd r { u with desc := v.toNat? }
+  | "relays" :: v :: r, u => parseUpd r { u with relays := some ((List.range (v.toNat?.getD 0)).map (· + 1)) }
+  | "admins" :: v :: r, u => parseUpd r { u with admins := some (csv v) }
+  | "nid" :: v :: r, u => parseUpd r { u with nid := some (v.toNat?.getD 0 + 1) }
+  | _, _ => none
 
 def resStr (r : Res) : String :=
   match r with
@@ -65,10 +78,14 @@ def exec (w : W) (t : List String) : W × String × Option Nat :=
     match getCl w (n c) with
     | none => (w, "bad-client", none)
     | some cl => let (cl', r) := stageCommit cl (n ev) (n ts) (n idnum) .selfUpdate false; (withRes w cl' r, resStr r, some (n c))
-  | ["name", c, tok, ev, ts, idnum] =>
+  | "data" :: c :: ev :: ts :: idnum :: fields =>
+    -- data <c> <ev> <ts> <idnum> (<field> <value>)*   — `update_group_data` with the named fields set
     match getCl w (n c) with
     | none => (w, "bad-client", none)
-    | some cl => let (cl', r) := stageCommit cl (n ev) (n ts) (n idnum) (.setName (n tok)) true; (withRes w cl' r, resStr r, some (n c))
+    | some cl =>
+      match parseUpd fields {} with
+      | none => (w, "bad-op", none)
+      | some u => let (cl', r) := updateData cl (n ev) (n ts) (n idnum) u; (withRes w cl' r, resStr r, some (n c))
   | ["remove", c, j, ev, ts, idnum] =>
     match getCl w (n c) with
     | none => (w, "bad-client", none)
